@@ -807,8 +807,64 @@ var editChars = []string{"", " ", "+", "-", "0", "1", "x", "_", ".", "/", ":", "
 // patEditChars: the metacharacters of the pattern language and a few ordinary characters
 var patEditChars = []string{"(", ")", "[", "]", "*", "+", "?", "{", "}", "\\", "|", "-", "^", ".", ",", "a", "1", "é", " ", "\\d", "\\q", ")(", "(a", "b)", "{2}", "{3,1}"}
 
+// genPattern draws a regular expression from the XML Schema grammar (branches, pieces with quantifiers, groups, classes
+// with ranges and negation, single- and multi-character escapes, category escapes)
+func genPattern(t *rapid.T, depth int) string {
+	pick := func(n int, l string) int { return rapid.IntRange(0, n-1).Draw(t, l) }
+	var b strings.Builder
+	nb := 1 + pick(3, "branches")/2
+	for i := 0; i < nb; i++ {
+		if i > 0 {
+			b.WriteByte('|')
+		}
+		for j := pick(4, "pieces"); j > 0; j-- {
+			switch k := pick(10, "atom"); {
+			case k < 3:
+				b.WriteString([]string{"a", "b", "0", "é", "-", "_", ",", ":", " ", "z"}[pick(10, "char")])
+			case k == 3:
+				b.WriteByte('.')
+			case k == 4 && depth > 0:
+				b.WriteString("(" + genPattern(t, depth-1) + ")")
+			case k == 5:
+				b.WriteString([]string{"\\d", "\\w", "\\s", "\\D", "\\.", "\\\\", "\\-", "\\(", "\\)", "\\[", "\\]", "\\|", "\\*", "\\+", "\\?", "\\{", "\\}", "\\n", "\\t", "\\^"}[pick(20, "esc")])
+			case k == 6:
+				b.WriteString([]string{"\\p{L}", "\\p{Lu}", "\\P{Nd}", "\\p{IsBasicLatin}", "\\p{Zs}", "\\P{L}"}[pick(6, "cat")])
+			case k == 7 || k == 8:
+				b.WriteByte('[')
+				if pick(3, "neg") == 0 {
+					b.WriteByte('^')
+				}
+				for m := 1 + pick(3, "members"); m > 0; m-- {
+					b.WriteString([]string{"a-z", "0-9", "A-F", "x", "_", "\\d", "\\-", "\\]", "à-ü", ".", "*", "(", ")", "+"}[pick(14, "member")])
+				}
+				b.WriteByte(']')
+			default:
+				b.WriteString([]string{"ab", "xyz", "10"}[pick(3, "word")])
+			}
+			if pick(3, "quant") == 0 {
+				b.WriteString([]string{"*", "+", "?", "{2}", "{0,3}", "{1,}", "{3,3}"}[pick(7, "whichquant")])
+			}
+		}
+	}
+	return b.String()
+}
+
 func genArg(t *rapid.T) ArgCase {
 	kind := argKinds[rapid.IntRange(0, len(argKinds)-1).Draw(t, "kind")]
+	if kind == "pattern" && rapid.IntRange(0, 1).Draw(t, "grammar") == 1 {
+		// a sentence of the grammar, as it is or with one or two characters of the language edited
+		rs := []rune(genPattern(t, 2))
+		for e := rapid.IntRange(0, 2).Draw(t, "patedits"); e > 0; e-- {
+			pos := rapid.IntRange(0, len(rs)).Draw(t, "patpos")
+			ins := []rune(patEditChars[rapid.IntRange(0, len(patEditChars)-1).Draw(t, "patins")])
+			if rapid.Bool().Draw(t, "patreplace") && pos < len(rs) {
+				rs = append(rs[:pos:pos], append(ins, rs[pos+1:]...)...)
+			} else {
+				rs = append(rs[:pos:pos], append(ins, rs[pos:]...)...)
+			}
+		}
+		return ArgCase{Kind: kind, Arg: fw.BStr(string(rs))}
+	}
 	pool := validArgs[kind]
 	if rapid.IntRange(0, 2).Draw(t, "pool") == 0 {
 		pool = nearMisses[kind]
